@@ -29,9 +29,11 @@ def _cycle_check_starts(vf):
     """which transitions the cycle check starts a walk from: {'fallthrough'} (old form: `if not transition.is_fallthrough: continue`) or
     {'fallthrough', 'end'} (transitions listing End start a walk for the symbol End only); derived from the `continue` guard of the inner loop"""
     inner = next((n for n in ast.walk(vf) if isinstance(n, ast.For) and ast.unparse(n.iter) == "state.transitions"), None)
-    if inner is None or not inner.body or not isinstance(inner.body[0], ast.If):
+    if inner is None or not inner.body:
         return set()
-    first = inner.body[0]
+    first = next((x for x in inner.body if isinstance(x, ast.If)), None)      # (an initialisation such as `overflowing = []` may precede the chain)
+    if first is None or any(not (isinstance(x, ast.Assign) and isinstance(x.value, (ast.List, ast.Constant))) for x in inner.body[:inner.body.index(first)]):
+        return set()
     if ast.unparse(first.test) == "not transition.is_fallthrough" and len(first.body) == 1 and isinstance(first.body[0], ast.Continue) and not first.orelse:
         return {"fallthrough"}
     kinds = set()
@@ -39,9 +41,14 @@ def _cycle_check_starts(vf):
         kinds.add("fallthrough")
         nxt = first.orelse[0] if len(first.orelse) == 1 and isinstance(first.orelse[0], ast.If) else None
         if nxt is not None and ast.unparse(nxt.test) in ("DFTransition.End in transition.on_values", "DFTransition.End in transition.on_values and (not transition.error_handling)") \
-                and [ast.unparse(x) for x in nxt.body] == ["symbols = [DFTransition.End]"] \
-                and len(nxt.orelse) == 1 and isinstance(nxt.orelse[0], ast.Continue):
-            kinds.add("end")
+                and [ast.unparse(x) for x in nxt.body] == ["symbols = [DFTransition.End]"]:
+            rest = nxt.orelse
+            if len(rest) == 1 and isinstance(rest[0], ast.Continue):
+                kinds.add("end")
+            elif any(isinstance(x, ast.If) and len(x.body) == 1 and isinstance(x.body[0], ast.Continue) for x in rest):
+                # third start kind (C04.d2): consuming transitions that carry an appended match - everything else is still skipped
+                kinds.add("end")
+                kinds.add("append")
     return kinds
 
 
@@ -172,17 +179,24 @@ def run(ctx, rep, tier):
     asrc = ast.unparse(aux)
     old_walk = "real_target = x[transition.on_values]" in asrc and "real_target.is_fallthrough and consider(real_target)" in asrc
     new_walk = "steps = x.transitions" in asrc and "real_target = x[symbols]" in asrc and "steps = [real_target] if real_target and stays_in_place(real_target) else []" in asrc and \
-        "for step in steps:\n        for target in leads_to(step):\n            if target not in visited:\n                visited.add(target)\n                aux(target)" in asrc
+        ("for step in steps:\n        for target in leads_to(step):\n            if target not in visited:\n                visited.add(target)\n                aux(target)" in asrc or
+         "for step in steps:\n        if overflowing and makes_room(step):\n            continue\n        for target in leads_to(step):\n            if target not in visited:\n                visited.add(target)\n                aux(target)" in asrc)
     rep.check("isinstance(x, DFConditionPoint)" in asrc and (old_walk or new_walk), "C04.d", "DfaCompileCtx._verify_fallthrough_loop.aux",
               "condition points: every branch; plain states: the transition taken for the same symbols, if it does not consume; every successor is walked", "cycle walk changed")
 
-    # d2: the redirect of an overflowing append does not consume although its transition does (open: F-25)
-    rep.rule("C04.d2", "the cycle check follows the non-consuming redirect of an append that overflows (a consuming transition whose action MAY leave for the out-of-space handler)")
-    vs = ast.unparse(vf)
-    follows = "MAY_GOTO_TARGET" in vs
-    rep.check(follows, "C04.d2", "DfaCompileCtx._verify_fallthrough_loop", "override targets of MAY_GOTO_TARGET actions on consuming transitions are zero-width successors",
+    # d2 (F-25, repaired): the redirect of an appended match that does not fit does not consume although its transition does
+    rep.rule("C04.d2", "the cycle check follows the non-consuming redirect of an appended match that overflows (a consuming transition whose AppendTo may leave for the out-of-space handler); only a step that deletes that buffer ends the walk")
+    VF = "DfaCompileCtx._verify_fallthrough_loop"
+    okd2 = model.has(VF, "overflowing = [sub for action in transition.actions for sub in action.all_subactions() if isinstance(sub, AppendTo)]\nif not overflowing:\n    continue\nsymbols = transition.on_values") and \
+        model.has(VF, "if overflowing:\n    for handler in [target for append in overflowing for target in append.get_target_override_targets()]:\n        if handler not in visited:\n            visited.add(handler)\n            aux(handler)\nelse:\n    aux(state)") and \
+        "if overflowing and makes_room(step):\n            continue" in asrc
+    mr = model.functions.get(VF + ".makes_room")
+    okmr = mr is not None and ast.unparse(mr.body[-1]) == "return any((isinstance(sub, DeleteBuf) and all((sub.into_storage is append.into_storage for append in overflowing)) for action in step.actions for sub in action.all_subactions()))"
+    rep.check(bool(okd2), "C04.d2", VF, "a consuming transition carrying an appended match starts a walk at the append's handler(s), for the transition's symbols",
               "an append that overflows stores its out-of-space target and re-dispatches WITHOUT consuming the byte, but the cycle check only walks non-consuming transitions: "
               "`loop { try { s += /./; } catch (outofspace) { } }` is accepted and feed() spins once the buffer is full")
+    rep.check(bool(okmr), "C04.d2", VF + ".makes_room", "only a step that deletes every overflowing buffer is not crossed (the idiom `catch (outofspace) { delete s; }` stays legal)",
+              "which steps end the walk of an overflowing append changed: anything weaker than deleting that very buffer leaves it full, and the append overflows again")
 
     # d3 (F-78): a matched `end` pattern consumes nothing - end() goes on from its target with end-of-input still ahead
     rep.rule("C04.d3", "the cycle check treats a transition that lists End as a non-consuming step for end-of-input (end() re-dispatches after a matched `end` pattern)")
@@ -204,13 +218,6 @@ def run(ctx, rep, tier):
     rep.check(ok, "C04.d3", "DfaCompileCtx._verify_fallthrough_loop", "zero-width loops at end-of-input are refused",
               "`loop { case { \"a\" -> {} end -> { yield Y; } } }` goes round at end-of-input without ever finishing (its `else` twin is refused as an infinite loop): "
               "with the optimiser's merged yield, end() returns the yield code for ever")
-
-    # d2: override redirects are non-consuming moves too
-    rep.rule("C04.d2", "the cycle check follows the non-consuming redirects of actions that may override the next state (append overflow -> out-of-space handler)")
-    follows = re.search(r"for \w+ in \w+\.get_target_override_targets\(\):\s+(?:if [^\n]+\n\s+)*(?:visited\.add\([^\n]+\)\s+)?aux\(", vs) is not None
-    rep.check(follows, "C04.d2", "DfaCompileCtx._verify_fallthrough_loop", "override targets of MAY_GOTO_TARGET actions are successors in the cycle walk",
-              "an append that overflows stores its out-of-space target and re-dispatches WITHOUT consuming the byte, but the cycle check only walks fall-through transitions: "
-              "`loop { try { s += /./; } catch (outofspace) { } }` is accepted and feed() spins once the buffer is full")
 
     # ------------------------------------------------------------------ C04.e re-dispatch at a stored state
     rep.rule("C04.e", "every non-consuming goto (repeatswitch / fall_N / skipaction) is preceded by a state store on its emission path")
